@@ -5,7 +5,7 @@ import ast
 from typing import Dict, List, Set
 
 from ..engine.effects import typed_writes
-from ..engine.match import Spec, loop_doms, require_return, residual
+from ..engine.match import Spec, loop_doms, require_return, residual, same_function
 from ..engine.repo import AnalysisError
 from ..engine.report import Check
 from ..engine.terms import C, Term, show, subterms
@@ -130,7 +130,8 @@ def r03_3(ck: Check) -> None:
     rets = s.returns()
     construct = "PublicKeyBalances[key]: cache[key] := public_key_balances_by_hash(key) when absent; returns cache[key]"
     if len(st) == 1 and st[0].term == sp.term("self.cache[key]") and st[0].value == sp.term("self.public_key_balances_by_hash(key)") \
-            and [c.term for c in residual(st[0], ())] == [sp.term("key not in self.cache")] and len(rets) == 1 and rets[0].term == sp.term("self.cache[key]"):
+            and [c.term for c in residual(st[0], ())] == [sp.term("key not in self.cache")] and rets \
+            and all(r.term == sp.term("self.cache[key]") for r in rets) and same_function(s, sp.term("self.cache[key]")):
         ck.ok("R03.3", construct, "cached per block id", s.fi.loc)
     else:
         ck.violated("R03.3", construct, "%s" % [e.describe()[:120] for e in st + rets], s.fi.loc)
@@ -153,8 +154,8 @@ def r03_3(ck: Check) -> None:
           and pk[0].term[2][2] == ("e", dom, "elem") and ut[0].term[2][1] == ("e", dom, "elem") and pk[0].term[2][1][0] == "lv"
           and not any(l[2] for l in pk[0].loops))
     empty = ("call", ("g", "ext:immutables.Map"), (), ())
-    i1 = first_assignment(ck, fi, pk[0].term[2][0][1]) if ok else None
-    i2 = first_assignment(ck, fi, pk[0].term[2][1][1]) if ok else None
+    i1 = s.norm.lv_init.get(pk[0].term[2][0]) if ok else None      # value on loop entry
+    i2 = s.norm.lv_init.get(pk[0].term[2][1]) if ok else None
     rets = [r for r in s.returns() if r.term != empty]
     if ok and i1 == empty and i2 == empty and len(rets) == 1 and rets[0].term[0] == "lv" and rets[0].term[1] == pk[0].term[2][1][1]:
         ck.ok("R03.3", construct, "", fi.loc)
